@@ -1,2 +1,42 @@
-(* C13 *)
-From Grex Require Import Base.Str.
+(* C13 — the repetition thresholds are respected: a repetition is only written when the
+   substring is repeated more than min_rep times and has at least min_len graphemes. *)
+From Grex Require Import Base.Str Model.Config Model.Cluster Model.Dfa Model.Expr Model.Pipeline.
+From Grex Require Import Proofs.RepInv Proofs.Provenance Proofs.ProvenanceInst Proofs.PropsGlue.
+
+(* every grapheme g of a literal of the final expression (lit_in g e): either it is not
+   repeated, or its upper bound exceeds min_rep and its unit has at least min_len characters *)
+Theorem C13_thresholds : forall c db ws sc e,
+  Pipeline.final_expr c (grapheme_clusters c db ws) sc = Some e ->
+  forall g, lit_in g e ->
+    (g_min g = 1%N /\ g_max g = 1%N)
+    \/ ((min_rep c < g_max g)%N /\ (min_len c <= N.of_nat (length (g_chars g)))%N).
+Proof. exact final_expr_thresholds. Qed.
+
+(* without repetition conversion nothing is repeated: no braces in the output *)
+Theorem C13_no_braces : forall c db ws sc e, f_rep c = false ->
+  Pipeline.final_expr c (grapheme_clusters c db ws) sc = Some e ->
+  forall g, lit_in g e -> g_min g = 1%N /\ g_max g = 1%N.
+Proof. exact final_expr_unit. Qed.
+
+(* on one cluster, at every nesting depth (thr_ok is recursive over the nested repetitions):
+   min = max, and either (1,1) without nested repetitions or max > min_rep and the unit has at
+   least min_len graphemes *)
+Theorem C13_clusters : forall c cl,
+  Forall plain cl -> Forall (thr_ok c) (convert_repetitions c cl).
+Proof. exact convert_thresholds_strong. Qed.
+
+Theorem C13_thr_ok_unfold : forall c cs rs a b,
+  thr_ok c (G cs rs a b) <->
+  a = b
+  /\ ((a = 1%N /\ rs = []) \/ ((min_rep c < b)%N /\ (min_len c <= N.of_nat (length cs))%N))
+  /\ Forall (thr_ok c) rs.
+Proof.
+  intros c cs rs a b. split.
+  - intros H. inversion H; subst. auto.
+  - intros (H1 & H2 & H3). constructor; assumption.
+Qed.
+
+Print Assumptions C13_thresholds.
+Print Assumptions C13_no_braces.
+Print Assumptions C13_clusters.
+Print Assumptions C13_thr_ok_unfold.
